@@ -785,6 +785,34 @@ func checkU23(c *Ctx, p *Prog, fn *ssa.Function) {
 				p3 = append(p3, "the zero-share test precedes the division")
 			}
 		}
+		// every visited combination reaches the test: no way round it back to the head of the loop
+		// (or, in a per-combination helper, to a "passed" answer) other than for an empty combination
+		{
+			ztb := zt.Block()
+			skip := func(start *ssa.BasicBlock, within map[*ssa.BasicBlock]bool, hit func(b *ssa.BasicBlock) bool) bool {
+				return reachAvoiding(start, ztb, within, isCombo, hit)
+			}
+			if ufn == fn && header != nil && loop[ztb] && header != ztb {
+				if skip(header, loop, func(b *ssa.BasicBlock) bool { return b == header }) {
+					p3 = append(p3, "some combinations go round the zero-share test (a path from the head of the loop back to it avoids the test): they are not judged")
+				}
+			} else if ufn != fn && len(ufn.Blocks) > 0 && ufn.Blocks[0] != ztb {
+				pass := "true"
+				if negBody {
+					pass = "false"
+				}
+				if skip(ufn.Blocks[0], nil, func(b *ssa.BasicBlock) bool {
+					ret, ok := b.Instrs[len(b.Instrs)-1].(*ssa.Return)
+					if !ok || len(ret.Results) != 1 {
+						return false
+					}
+					cv, isC := ret.Results[0].(*ssa.Const)
+					return isC && constString(cv) == pass
+				}) {
+					p3 = append(p3, "the per-combination predicate can pass a combination without the zero-share test: it is not judged")
+				}
+			}
+		}
 		// failed test => return false
 		okFalse := false
 		for _, b := range ufn.Blocks {
@@ -829,7 +857,12 @@ func checkU23(c *Ctx, p *Prog, fn *ssa.Function) {
 	}
 	if len(tolCalls) > 0 {
 		tc := tolCalls[0]
-		if len(zeroTests) == 1 && !instrDominates(zeroTests[0], tc) {
+		ztBefore := len(zeroTests) == 1 && instrDominates(zeroTests[0], tc)
+		if len(zeroTests) == 1 && !ztBefore && ufn == fn && header != nil && loop[zeroTests[0].Block()] && loop[tc.Block()] && zeroTests[0].Block() != tc.Block() && header != zeroTests[0].Block() {
+			// the test is skipped only for an empty combination (for which it holds trivially)
+			ztBefore = !reachAvoiding(header, zeroTests[0].Block(), loop, isCombo, func(b *ssa.BasicBlock) bool { return b == tc.Block() })
+		}
+		if len(zeroTests) == 1 && !ztBefore {
 			p4 = append(p4, "the tolerance test runs without the zero-share test before it: suitable no longer implies non-fatal")
 		}
 		tol := p.Callee(tc)
@@ -1117,4 +1150,71 @@ func loop0(loop map[*ssa.BasicBlock]bool) *ssa.BasicBlock {
 		return b
 	}
 	return nil
+}
+
+// lenZeroEdge: taking this edge implies len(x) == 0 for a list x accepted by isList.
+func lenZeroEdge(e CondEdge, isList func(ssa.Value) bool) bool {
+	ifi, ok := e.From.Instrs[len(e.From.Instrs)-1].(*ssa.If)
+	if !ok {
+		return false
+	}
+	v, neg := condOf(ifi.Cond)
+	b, ok := v.(*ssa.BinOp)
+	if !ok {
+		return false
+	}
+	call, ok := b.X.(*ssa.Call)
+	if !ok || len(call.Call.Args) != 1 {
+		return false
+	}
+	if bi, isB := call.Call.Value.(*ssa.Builtin); !isB || bi.Name() != "len" || !isList(call.Call.Args[0]) {
+		return false
+	}
+	cv, ok := b.Y.(*ssa.Const)
+	if !ok {
+		return false
+	}
+	truth := (e.Succ == 0) != neg
+	k := constString(cv)
+	switch {
+	case b.Op == token.EQL && k == "0", b.Op == token.LSS && k == "1", b.Op == token.LEQ && k == "0":
+		return truth
+	case b.Op == token.NEQ && k == "0", b.Op == token.GTR && k == "0", b.Op == token.GEQ && k == "1":
+		return !truth
+	}
+	return false
+}
+
+// reachAvoiding: some path from start (exclusive) reaches a block accepted by hit without entering
+// avoid, staying within the given blocks (nil = whole function) and never taking an edge that
+// implies the visited list is empty.
+func reachAvoiding(start, avoid *ssa.BasicBlock, within map[*ssa.BasicBlock]bool, isList func(ssa.Value) bool, hit func(b *ssa.BasicBlock) bool) bool {
+	seen := map[*ssa.BasicBlock]bool{}
+	found := false
+	var stack []*ssa.BasicBlock
+	push := func(from *ssa.BasicBlock) {
+		_, isIf := from.Instrs[len(from.Instrs)-1].(*ssa.If)
+		for i, s := range from.Succs {
+			if isIf && len(from.Succs) == 2 && lenZeroEdge(CondEdge{from, i}, isList) {
+				continue
+			}
+			if s == avoid || (within != nil && !within[s]) {
+				continue
+			}
+			if hit(s) {
+				found = true
+			}
+			if !seen[s] {
+				seen[s] = true
+				stack = append(stack, s)
+			}
+		}
+	}
+	push(start)
+	for len(stack) > 0 && !found {
+		x := stack[len(stack)-1]
+		stack = stack[:len(stack)-1]
+		push(x)
+	}
+	return found
 }
